@@ -113,26 +113,53 @@ Example ex_unit :
          ("h", IObj "G2" [("a", IV 102%Z); ("b", IV 2%Z)])].
 Proof. vm_compute. reflexivity. Qed.
 
-(* ---------- known finding C01 arith-member-in-tuple (current code, see Model.prune): the full statement
-   "tuple parameters are computed from those values" is REFUTED for a tuple with an arithmetic member:
-   m = Model(T2, c=p2); m.pos_0 = p0 + p1; m.pos_1 = p1 builds pos = (0.5,) instead of (0.75, 0.5) ---------- *)
+(* ---------- former finding arith-member-in-tuple (repaired by /repo 7acf0fe).  HISTORY: the code used to build
+   a tuple from its Prior | float members only; legacy_prune is that view.  Today every member is evaluated:
+   m = Model(T2, c=p2); m.pos_0 = p0 + p1; m.pos_1 = p1 builds pos = (0.75, 0.5) (legacy: (0.5,)). ---------- *)
+Fixpoint legacy_prune (n : fnode) : fnode :=
+  match n with
+  | NTuple ms =>
+      NTuple ((fix go (ms : list (string * (nat * fnode))) : list (string * (nat * fnode)) :=
+                 match ms with
+                 | [] => []
+                 | (k, (i, c)) :: ms' =>
+                     match c with
+                     | NPrior _ | NConst _ => (k, (i, c)) :: go ms'
+                     | _ => go ms'
+                     end
+                 end) ms)
+  | NModel cls ctor attrs =>
+      NModel cls ctor ((fix go (a : list (string * fnode)) : list (string * fnode) :=
+                          match a with [] => [] | (k, c) :: a' => (k, legacy_prune c) :: go a' end) attrs)
+  | NColl attrs =>
+      NColl ((fix go (a : list (string * fnode)) : list (string * fnode) :=
+                match a with [] => [] | (k, c) :: a' => (k, legacy_prune c) :: go a' end) attrs)
+  | _ => n
+  end.
+
 Definition ex_arith_member : fnode :=
   NModel "T2" ["c"; "pos"]
     [("c", NPrior 2);
      ("pos", NTuple [("pos_0", (0, NBin OAdd "p0" "p1" (NPrior 0) (NPrior 1))); ("pos_1", (1, NPrior 1))])].
 
-Example tuple_arith_member_refuted :
-  exists (n : fnode) (vec : list float),
-    ival_eqb (inst float fbin (zip_args float (ordered_ids float n) vec) (prune n)) (inst_from_vector float fbin n vec) = false.
-Proof. exists ex_arith_member, [0.25%float; 0.5%float; 0.75%float]. vm_compute. reflexivity. Qed.
-
-Example tuple_arith_member_current :
-  lookup float ["pos"] (inst float fbin (zip_args float (ordered_ids float ex_arith_member) [0.25%float; 0.5%float; 0.75%float]) (prune ex_arith_member))
-  = Some (ITup [IV 0.5%float]).
+(* the model = the code as it now is *)
+Example tuple_arith_member_now :
+  lookup float ["pos"] (inst_from_vector float fbin ex_arith_member [0.25%float; 0.5%float; 0.75%float])
+  = Some (ITup [IV 0.75%float; IV 0.5%float]).
 Proof. vm_compute. reflexivity. Qed.
 
-(* partial (C01_tuple_members_partial): non-vacuity of its guard, and the guard excludes the witness above *)
-Example simple_members_ex :
-  simple_members (NModel "T2" ["c"; "pos"] [("c", NPrior 1); ("pos", NTuple [("pos_0", (0, NPrior 0)); ("pos_1", (1, NConst 2%float))])]) = true
-  /\ simple_members ex_arith_member = false.
-Proof. vm_compute. split; reflexivity. Qed.
+(* C01_tuple_member_derived: its hypotheses are met by the arithmetic member of ex_arith_member *)
+Example tuple_member_derived_hyp :
+  eval float fbin (zip_args float [0; 1; 2] [0.25%float; 0.5%float; 0.75%float]) (NBin OAdd "p0" "p1" (NPrior 0) (NPrior 1))
+  = Some 0.75%float.
+Proof. vm_compute. reflexivity. Qed.
+
+Example tuple_arith_member_legacy_refuted :
+  exists (n : fnode) (vec : list float),
+    ival_eqb (inst float fbin (zip_args float (ordered_ids float n) vec) (legacy_prune n)) (inst_from_vector float fbin n vec) = false.
+Proof. exists ex_arith_member, [0.25%float; 0.5%float; 0.75%float]. vm_compute. reflexivity. Qed.
+
+Example tuple_arith_member_legacy :
+  lookup float ["pos"] (inst float fbin (zip_args float (ordered_ids float ex_arith_member) [0.25%float; 0.5%float; 0.75%float]) (legacy_prune ex_arith_member))
+  = Some (ITup [IV 0.5%float]).
+Proof. vm_compute. reflexivity. Qed.
